@@ -138,6 +138,16 @@ def run(lines, out, args):
                 try:
                     v = comp(f[1])
                     nm = f[3] if op == "regU" else f[4] if op == "regA" else ""
+                    if nm.startswith("#"):
+                        # a name that is not a string: refused (ValueError) -- and nothing may have been written anywhere
+                        bad = {"#b": b"a", "#n": 7, "#t": ("a",)}[nm]
+                        if op == "regU":
+                            c.registerUtility(v, ifs[int(f[2])], bad, f[4])
+                        else:
+                            toks = f[2].split()
+                            RQ = tuple(st["K"] if x == "5" else ifs[int(x)] for x in toks if x.isdigit())
+                            c.registerAdapter(v, RQ, ifs[int(f[3])], bad, "i")
+                        raise AssertionError("accepted")
                     if nm.startswith("@"):
                         v.__component_name__ = nm[1:]           # the name is not passed: it comes from the component
                     if op == "regU" and nm.startswith("@"):
@@ -169,6 +179,8 @@ def run(lines, out, args):
                             ret = str(c.unregisterHandler(v, RQ))
                 except TypeError:
                     ret = "TypeError"
+                except ValueError:
+                    ret = "ValueError"
                 finally:
                     if v is not None and "__component_adapts__" in v.__dict__:
                         del v.__component_adapts__
